@@ -87,4 +87,9 @@ def tasks(tier):
                                    "sampling_method:SamplingMethod.fill_placeholders_at_t0", "sampling_method:SamplingMethod.fill_placeholders_at_tf"],
                         replay=dict(harness="nlp_diff_any", families=[["C05", [m + "-"]]], parts=["objective"]),
                         bound=dict(N="symbolic (all N>=1)", dims="nx=2,nu=1, one parameter/variable of every grid kind")))
+    # several stages: the objective handed to the solver is the sum over all stages (and the master) of their declared terms
+    from . import c12
+    for i in range(40 if tier == "thorough" else 12):
+        inst = "C05/R%03d-two-generated-stages" % i
+        out.append(Task(inst, c12.guarded(lambda i=i: c12.generated_two_stages(i, prop="C05"), inst), kind="bounded", bound=dict(generated=[2 * i, 2 * i + 1]), replay=dict(harness="two_stage_probe", index=i)))
     return out
